@@ -1274,8 +1274,8 @@ fn find_subselectors() {
 /// absolute codepoint offsets where the text occurs, in order and inside the range
 #[test]
 fn find_text_ops() {
-    let texts = ["a b c d", "abab", "é €€ 𝄞 é", "xXxX", "  ab  ", "", "\u{130}\u{130}xab", "\u{212A}x b", "ΑΑΣ σας"];
-    let needles = ["a", "ab", " ", "€", "é", "X", "b c", "i", "k", "Σ", "ας"];
+    let texts = ["a b c d", "abab", "é €€ 𝄞 é", "xXxX", "  ab  ", "", "\u{130}\u{130}xab", "\u{212A}x b", "ΑΑΣ σας", "\u{130}\u{130}i ab"];
+    let needles = ["a", "ab", " ", "€", "é", "X", "b c", "i", "k", "Σ", "ας", "\u{130}i"];
     for text in texts {
         let store = AnnotationStore::default().with_resource(TextResourceBuilder::new().with_id("r").with_text(text)).unwrap();
         let res = store.resource("r").unwrap();
